@@ -17,11 +17,14 @@ Perms(S) == IF S = {} THEN {<<>>} ELSE UNION {{<<x>> \o p : p \in Perms(S \ {x})
 OrderedSubsets(S) == UNION {Perms(Q) : Q \in SUBSET S}
 
 (* a signature: n parameters, the first r required; dk = kind of default values *)
-Sigs == UNION {{[n |-> n, r |-> r, dk |-> dk] : r \in 0..n, dk \in (IF n > 0 THEN {"int", "str"} ELSE {"int"})} :
+(* ko = how many of the LAST parameters are keyword-only (declared after a bare star): they can only be given by keyword,    *)
+(* and the emitted call still carries them at their position                                                          *)
+Sigs == UNION {{[n |-> n, r |-> r, dk |-> dk, ko |-> ko] : r \in 0..n, dk \in (IF n > 0 THEN {"int", "str"} ELSE {"int"}),
+                                                            ko \in 0..(IF n < 2 THEN n ELSE 2)} :
                   n \in 0..MaxParams}
 SigsU == {sg \in Sigs : sg.dk = "int" \/ sg.n > sg.r}      \* str defaults only matter if there is a default
 Shapes(sg) == UNION {{[npos |-> np, kws |-> ks] :
-                         ks \in OrderedSubsets({ParamNames[i] : i \in (np + 1)..sg.n})} : np \in 0..sg.n}
+                         ks \in OrderedSubsets({ParamNames[i] : i \in (np + 1)..sg.n})} : np \in 0..(sg.n - sg.ko)}
 Cases == UNION {{[sig |-> sg, shape |-> sh, ctx |-> cx] : sh \in Shapes(sg), cx \in Contexts} : sg \in SigsU}
 
 VARIABLE cs
